@@ -244,6 +244,39 @@ class Run:
         self.init_state = None
 
 
+def _trace_entry(li, kind, wells, volumes):
+    try:
+        ws = [str(w) for w in np.array(wells).flatten("F")]
+        vs = [float(v) for v in np.array(volumes, dtype=float).flatten("F")]
+        if len(vs) == 1:
+            vs = vs * len(ws)
+    except Exception:  # noqa: BLE001
+        ws, vs = [], []
+    return {"lab": li, "kind": kind, "wells": ws, "vols": vs, "ok": False}
+
+
+def _wrap_labware(run, li, L):
+    """Record every Labware.add/remove call (observation only; the original method runs unchanged)."""
+    orig_add, orig_remove = L.add, L.remove
+
+    def add(wells, volumes, label=None, compositions=None):
+        entry = _trace_entry(li, "add", wells, volumes)
+        run.trace.append(entry)
+        out = orig_add(wells, volumes, label, compositions=compositions)
+        entry["ok"] = True
+        return out
+
+    def remove(wells, volumes, label=None):
+        entry = _trace_entry(li, "remove", wells, volumes)
+        run.trace.append(entry)
+        out = orig_remove(wells, volumes, label)
+        entry["ok"] = True
+        return out
+
+    L.add = add
+    L.remove = remove
+
+
 def run_program(prog: dict, observers=(), stop_on_error: bool = True) -> Run:
     """Declare the labware, then run the operations; after each op record error class + full state.
 
@@ -258,8 +291,12 @@ def run_program(prog: dict, observers=(), stop_on_error: bool = True) -> Run:
             r.lab_results.append(classify(e))
     r.wl = make_wl(prog["cfg"])
     r.init_state = dump_state(r.labs, r.wl)
+    r.trace = []
+    for li, L in enumerate(r.labs):
+        _wrap_labware(r, li, L)
     for i, op in enumerate(prog.get("ops", [])):
         exc = None
+        r.trace = []
         try:
             apply_op(r.labs, r.wl, op)
         except Exception as e:  # noqa: BLE001
